@@ -161,7 +161,9 @@ reg("C14",
                             P.gen_size_matrix(G.Rng(seed + 142))),
     monitors=[lambda rr: (P.mon_abandon(rr) if "base" in rr.prog.tags else
                           P.mon_size_matrix(rr) if "matrix" in rr.prog.tags else P.mon_commit(rr))],
-    extra=lambda seed, tier, flavours: LG.leg_fault_injection(LG.fault_cases_writes(G.Rng(seed + 141)), flavours[0], tier),
+    extra=lambda seed, tier, flavours: merge(
+        LG.leg_fault_injection(LG.fault_cases_writes(G.Rng(seed + 141)), flavours[0], tier),
+        LG.leg_writer_faults(flavours[0], tier)),
     nontrivial=lambda rr: has(rr, ("wdrop", "wcommit"), ()),
     rule="programs: two committed entries, then a writer (sync/async, keyed/by address, mapped/plain) dropped after "
          "0..all of its chunks, optionally with another successful write in between; plus the rejected-commit programs "
@@ -228,6 +230,8 @@ def merge(*parts):
                 out[k] += v
             elif k in ("evaluations", "distinct_nontrivial"):
                 out[k] += v
+            elif isinstance(v, dict) and isinstance(out.get(k), dict):
+                out[k] = dict(out[k], **v)
             else:
                 out[k] = v
     return out
@@ -260,7 +264,8 @@ reg("C03",
     extra=lambda seed, tier, flavours: merge(
         LG.leg_skeleton(P.gen_roundtrip_programs(G.Rng(seed + 31), N(tier, 10, 60)), flavours[0]),
         LG.leg_kill_sweep(LG.kill_cases(G.Rng(seed + 32), N(tier, 4, 24)), flavours[0], max_points=N(tier, 14, 200)),
-        LG.leg_fault_injection(LG.fault_cases_writes(G.Rng(seed + 33)), flavours[0], tier)),
+        LG.leg_fault_injection(LG.fault_cases_writes(G.Rng(seed + 33)), flavours[0], tier),
+        LG.leg_writer_faults(flavours[0], tier)),
     nontrivial=lambda rr: has(rr, ("dump",), ("ok",)),
     rule="(a) API: writes of every shape (one-shot / streamed / declared size right and wrong / keyed / by address / both "
          "flavours / sizes around 1 MiB), content area dumped and every file's digest recomputed with hashlib; "
@@ -297,6 +302,7 @@ reg("C13",
     extra=lambda seed, tier, flavours: merge(
         LG.leg_fault_injection(LG.fault_cases(G.Rng(seed + 13)), flavours[0], tier),
         LG.leg_short_write(G.Rng(seed + 131), flavours[0], N(tier, 8, 60)),
+        *[LG.leg_writer_faults(fl, tier) for fl in (flavours if tier == "thorough" else flavours[:1])],
         LG.leg_mmap_failure(P.gen_size_matrix(G.Rng(seed + 132)) + R_corpus("C13"), flavours,
                             [mon_generic, P.mon_size_matrix, lambda rr: mon_content_valid(rr)])),
     nontrivial=lambda rr: True,
@@ -307,7 +313,11 @@ reg("C13",
          "SHORT WRITES: a file-size limit (RLIMIT_FSIZE, SIGXFSZ ignored) cuts the index append / temp-file write at several "
          "byte offsets so that write(2) returns short and the retry fails with EFBIG; FAILING mmap(2): the declared-size "
          "matrix (sync/async x keyed/by address x size =,<,> data x chunk shapes, incl. 1 MiB and beyond) under an LD_PRELOAD "
-         "shim that fails every file-backed shared mapping, judged by the same monitors; FAULT CORRESPONDENCE: the outcome of every "
+         "shim that fails every file-backed shared mapping, judged by the same monitors; PERSISTENT CALLER: streamed writers "
+         "(no declared size / exact / too small = the mapping is left mid-stream / too large) x sync/async whose caller tries a "
+         "failed write(...) again with the unacknowledged bytes and then commits, with {EINTR, EIO, ENOSPC} at every occurrence "
+         "of write / ftruncate / msync / lseek / fallocate / rename / mkdir / openat: content area valid, commit ok <=> the key "
+         "reads back the whole stream, no temp file left; FAULT CORRESPONDENCE: the outcome of every "
          "real injection (result class + every file and link of the cache afterwards, bucket checksums/times masked) must be "
          "one of the outcomes the model's runFault produces for a single failing call of that operation (driver op "
          "`faultset`: every call index x error kind x partial-write length incl. 'all bytes written, error reported')")
